@@ -372,6 +372,53 @@ class Thing(Symbol):
     return Harness("let-domain", run, spec=Spec())
 
 
+def h_live_domain():
+    """a variable without an explicit domain is RE-BOUND to get_instances_of_type(its type) whenever an evaluation starts -- whatever an
+    earlier evaluation cached (nothing at all, when no instance existed then; or instances that died since) -- and the query
+    descriptor announces the evaluation to every node of every selected expression, conditions or not"""
+    def run(vm):
+        ctx = vm.ctx
+        SYM_ = "krrood.entity_query_language.symbolic"
+        HD_ = "krrood.entity_query_language.hashed_data"
+        calls = []
+        g = vm.alloc(vm.ext("object"), {}, tag="graph")
+
+        def gi(it, fr, a, k):
+            calls.append(a[0])
+            return PyList([vm.alloc(vm.ext("object"), {}, tag=f"live-instance-{len(calls)}")])
+        g.fields["get_instances_of_type"] = Builtin("get_instances_of_type", gi)
+        vm.spec.stubs["SymbolGraph.__call__"] = lambda it, a, k: g
+        T = vm.alloc(vm.ext("type"), {"__name__": "T"}, tag="type-T")
+        HI = vm.loader.cls(HD_, "HashedIterable")
+        for cached in ("nothing (no instance existed at the earlier evaluation)", "one instance"):
+            old = vm.call(HI, [], {})
+            if cached.startswith("one"):
+                vm.call_method(old, "set_iterable", PyList([vm.alloc(vm.ext("object"), {}, tag="cached-instance")]))
+                list(vm.iterate(vm.call_method(old, "__iter__")))
+            src = vm.alloc(vm.loader.cls(SYM_, "From"), {"domain": old, "live_type": T}, tag="source")
+            var = vm.alloc(vm.loader.cls(SYM_, "Variable"), {"_id_": 5, "_domain_": old, "_domain_source_": src, "_predicate_type_": None, "_name__": "x"}, tag="variable")
+            del calls[:]
+            vm.call_method(var, "_start_evaluation_")
+            new = var.fields["_domain_"]
+            vals = [v_.fields.get("value") for v_ in vm.iterate(vm.call_method(new, "__iter__"))] if isinstance(new, Obj) else None
+            ok = calls == [T] and new is not old and vals is not None and len(vals) == 1 and getattr(vals[0], "tag", "").startswith("live-instance")
+            ctx.check("Variable._start_evaluation_::a-domain-less-variable-is-re-bound-to-the-instances-that-exist-now-whatever-was-cached", z3.BoolVal(bool(ok)),
+                      detail=f"cached: {cached}; asked the graph for {calls}; domain replaced: {new is not old}; ranges over {vals!r}")
+        # the descriptor tells the nodes of its selected expressions
+        told = []
+        nodes = [vm.alloc(vm.ext("object"), {"_start_evaluation_": Builtin("start", lambda it, fr, a, k, i=i: told.append(i))}, tag=f"node{i}") for i in range(3)]
+        sel1 = vm.alloc(vm.ext("object"), {"_all_nodes_": PyList(nodes[:2])}, tag="selected-1")
+        sel2 = vm.alloc(vm.ext("object"), {"_all_nodes_": PyList(nodes[2:])}, tag="selected-2")
+        for has_condition in (False, True):
+            d = vm.alloc(vm.loader.cls(SYM_, "SetOf"), {"_id_": 9, "selected_variables": PyList([sel1, sel2]),
+                                                        "_child_": vm.alloc(vm.loader.cls(SYM_, "SymbolicExpression"), {"_id_": 8}, tag="condition") if has_condition else None}, tag="descriptor")
+            del told[:]
+            vm.call_method(d, "_start_evaluation_")
+            ctx.check("QueryObjectDescriptor._start_evaluation_::every-node-of-every-selected-expression-is-told-with-or-without-conditions",
+                      z3.BoolVal(sorted(told) == [0, 1, 2]), detail=f"conditions: {has_condition}; told {told}")
+    return Harness("live-domain", run, spec=Spec())
+
+
 def h_canary():
     def run(vm):
         ctx = vm.ctx
@@ -385,4 +432,4 @@ def h_canary():
 
 
 def harnesses():
-    return [h_sweep(), h_get_instances(), h_get_instances_complete(), h_recursive_subclasses(), h_registration(), h_let_domain(), h_canary()]
+    return [h_sweep(), h_get_instances(), h_get_instances_complete(), h_recursive_subclasses(), h_registration(), h_let_domain(), h_live_domain(), h_canary()]
